@@ -1,10 +1,22 @@
 /- Dispatch table of the hand-written models (tie B).  Core Lean only.
    Every model file exports `ops : String → Json → Option (Except String Json)` (none = not my op). -/
 import GSV.Proto
+import GSV.Model.Geo
+import GSV.Model.Norm
+import GSV.Model.CovState
+import GSV.Model.Transform
+import GSV.Model.Krige
+import GSV.Model.Gen
+import GSV.Model.Cond
+import GSV.Model.Fit
+import GSV.Model.Heap
+import GSV.Model.Vario
+import GSV.Model.CovFn
 open Lean GSV GSV.Proto
 namespace GSV.Model
 
 def modelOps : List (String → Json → Option (Except String Json)) := [
+  Geo.ops, Norm.ops, CovState.ops, Transform.ops, Krige.ops, Gen.ops, Cond.ops, Fit.ops, Heap.ops, Vario.ops, CovFn.ops
 ]
 
 def modelOp (op : String) (j : Json) : Option (Except String Json) :=
